@@ -33,8 +33,8 @@ type budget struct {
 var budgets = map[string]budget{
 	"C11": {plainRuns: 1600, raceRuns: 0, level: "fault_enumeration"},
 	"C12": {plainRuns: 1920, raceRuns: 480, level: "exploration"},
-	"C13": {plainRuns: 1200, raceRuns: 480, raceFilter: "sinkMain", level: "exploration"},
-	"C15": {plainRuns: 1600, raceRuns: 0, level: "exploration"},
+	"C13": {plainRuns: 3600, raceRuns: 480, raceFilter: "sinkMain", level: "exploration"},
+	"C15": {plainRuns: 9600, raceRuns: 0, level: "exploration"},
 	"C16": {plainRuns: 1200, raceRuns: 160, raceFilter: "sinkMain", level: "fault_enumeration"},
 }
 
